@@ -37,9 +37,12 @@ def main():
                                leanchecker=(a.tier == "thorough"))
         try:
             res = mod.run(st, a.tier, seed)
-        except (KeyboardInterrupt, RuntimeError, OSError, MemoryError, subprocess.TimeoutExpired, ImportError):
+        except (KeyboardInterrupt, RuntimeError, MemoryError, subprocess.TimeoutExpired, ImportError):
             raise                    # the harness' own sanity checks, resources, time-outs: infrastructure
         except BaseException as e:   # noqa
+            if isinstance(e, OSError) and not isinstance(e, FileNotFoundError):
+                raise                # disk full, too many open files, permissions: infrastructure
+            # (a file the implementation was expected to write and did not is an answer of the implementation)
             # the harness could not evaluate a case: on the unchanged tree this does not happen (every seed is run), so the
             # implementation has answered in a way the comparison code has no place for (an unexpected key, type, exit, shape).
             # The correspondence is then not established: reported as a broken obligation, not as exit 2.
